@@ -76,6 +76,7 @@ structure QuicPacketObj where
   deriving DecidableEq, Repr
 """]),
     "Suites": dict(imports=["TLX.PyRt", "TLX.CipherSuiteTypes"], decls=[]),
+    "TlsSess2": dict(imports=["TLX.PyRt", "TLX.Session"], decls=[]),
     # the frame class constructors call the two varint functions: this group rests on Varint's definitions
     "Frames": dict(imports=["TLX.PyRt", "TLX.Quic.FrameTypes", "TLX.Gen.Translated.Varint"], decls=[]),
 }
@@ -438,6 +439,90 @@ SPECS.append(dict(name="calculate_checksum_tcp", group="Checksum", file="tlexpor
                           ("len(packet.tcp)", "l4_len", "Nat", "r"), ("bytes(packet.tcp)", "l4_bytes", "Bytes", "r"),
                           ("packet.tcp.sum", "l4_sum", "Nat", "r")]))
 
+# session.py, the record handlers as a family over ONE state record (`Sess.St δ`, δ = the decryptor object): the methods
+# call each other (state calls), `Decryptor.decrypt` / `update_keys` and `generate_keys` are externals. A `TlsRecord` is the
+# model's `Rec` (`record.binary` = `Rec.body` …, tied by `TlsRecord_init`). Attributes that exist only after some record was
+# seen are `Option` places whose read is AttributeError on `none` (`maybe_attrs`).
+REC = "TLX.Session.Rec"
+SESS_ST = "Sess.St δ"
+SESS_FIELDS = [("self.can_decrypt", "can_decrypt", "Bool"), ("self.client_hello_seen", "client_hello_seen", "Bool"),
+               ("self.tls_version", "tls_version", f"Option {VER}"),
+               ("self.server_cipher_change", "server_cipher_change", "Bool"), ("self.client_cipher_change", "client_cipher_change", "Bool"),
+               ("self.decryptor", "decryptor", "Option δ"),
+               ("self.client_random", "client_random", "Option Bytes"), ("self.server_random", "server_random", "Option Bytes"),
+               ("self.ciphersuite", "ciphersuite", "Option Bytes"), ("self.compression_method", "compression_method", "Option Nat"),
+               ("self.extensions", "extensions", "Option (Table Bytes; Bytes)"),
+               ("self.application_traffic", "application_traffic", f"List ((Option Bytes) × {REC} × Bool)"),
+               ("self.handshake_13_buffer", "handshake_13_buffer", "Bytes × Bytes")]
+SESS_PLACES = [(k, f, t, "s") for k, f, t in SESS_FIELDS] + [("self.exp_meta", "exp_meta", "Bool", "r")]
+SESS_MAYBE = ["self.client_random", "self.server_random", "self.ciphersuite", "self.compression_method", "self.extensions"]
+SESS_EXT = {"decrypt": ("decrypt", f"δ → {REC} → Bool → PyRt.Res δ (Option Bytes)"),
+            "update_keys": ("update_keys", "δ → Bool → PyRt.Res δ Unit"),
+            "generate_keys": ("generate_keys", f"Option {VER} → Bytes → Bytes → Bytes → Option (List (Bytes × Bytes)) → Option Nat → Bool → Option δ → "
+                                               "PyRt.Res (Bool × Option δ) Unit")}
+REC_ATTRS = {(REC, "binary"): ("TLX.Session.Rec.body", "Bytes"), (REC, "raw"): ("TLX.Session.Rec.raw", "Bytes"),
+             (REC, "record_version"): ("TLX.Session.Rec.ver", "Bytes"), (REC, "record_type"): ("Sess.recType", "Nat")}
+SESS_METHODS = {
+    "self.decryptor.decrypt": dict(kind="method", recv="self.decryptor", lean="decrypt", args=[REC, "Bool"], ret="Option Bytes"),
+    "self.decryptor.update_keys": dict(kind="method", recv="self.decryptor", lean="update_keys", args=["Bool"], ret="None"),
+    "self.generate_keys": dict(kind="ext", lean="generate_keys", args=[f"Option {VER}", "Bytes", "Bytes", "Bytes"],
+                               reads=["self.extensions", "self.compression_method", "self.can_decrypt", "self.decryptor"],
+                               writes=["self.can_decrypt", "self.decryptor"], ret="None"),
+}
+# the externals each definition needs (its own and those of the definitions it calls), in this order
+SESS_NEEDS = {}
+
+
+def sess_state_decl():
+    lines = ["/-- the attributes of a `Session` the record handlers read and write (δ: the `Decryptor` object) -/",
+             "structure Sess.St (δ : Type) where"]
+    lines += [f"  {f} : {py2lean.ty(t)}" for _, f, t in SESS_FIELDS]
+    lines += ["  deriving DecidableEq, Repr", "", "/-- `record.record_type` (`binary[0]` as `TlsRecord.__init__` stores it, see `TlsRecord_init`) -/",
+              f"def Sess.recType (r : {REC}) : Nat := (r.raw.headD 0).toNat"]
+    return "\n".join(lines) + "\n"
+
+
+def sess_spec(func, params, ext, calls=(), **more):
+    """a method of the family; `calls`: the family methods it calls (already declared)"""
+    need = list(ext)
+    for c in calls:
+        need += [e for e in SESS_NEEDS[c] if e not in need]
+    need = [e for e in SESS_EXT if e in need]
+    SESS_NEEDS[func] = need
+    sc = {k: v for k, v in SESS_METHODS.items() if v["lean"] in need}
+    for c in calls:
+        cs = next(x for x in SPECS if x["name"] == "Sess." + c)
+        sc["self." + c] = dict(kind="shared", lean="Sess." + c, exts=SESS_NEEDS[c], args=[t for _, t in cs["params"]],
+                               rplaces=["self.exp_meta"], ret="None")
+    spec = dict(name="Sess." + func, group="TlsSess2", file="tlexport/session.py", func="Session." + func, params=params, ret="None",
+                tparams=["δ"], state=dict(type=SESS_ST, param="st"), always_res=True, places=SESS_PLACES, maybe_attrs=SESS_MAYBE,
+                pairdicts={"self.handshake_13_buffer": 'b""'}, consts=TLSVER, attr_funcs=REC_ATTRS,
+                externals=[SESS_EXT[e] for e in need], state_calls=sc)
+    spec.update(more)
+    SPECS.append(spec)
+
+
+SPECS.append(dict(name="TlsRecord_init", group="TlsSess2", file="tlexport/tlsrecord.py", func="TlsRecord.__init__",
+                  params=[("binary", "Bytes")], ret="None", raise_state=False, ignore_writes=["self.metadata", "self.isserver"],
+                  places=[("self.binary", "binary_", "Bytes", "rw"), ("self.record_type", "record_type", "Nat", "rw"),
+                          ("self.record_version", "record_version", "Bytes", "rw"), ("self.record_length", "record_length", "Bytes", "rw"),
+                          ("self.raw", "raw", "Bytes", "rw")]))
+SPECS.append(dict(name="Sess.St", group="TlsSess2", kind="raw", file="tlexport/session.py", func=None, gen=sess_state_decl,
+                  theorem="Sess.handle_tls_record_eq_model"))
+R = [("record", REC)]
+RS = [("record", REC), ("isserver", "Bool")]
+sess_spec("handle_alert", [("alert_level", "Nat")], [])
+sess_spec("handle_tls_client_hello", R, [])
+sess_spec("handle_tls_server_hello", R, ["generate_keys"], fuel={"while extensions_index": "extensions_length"})
+sess_spec("handle_handshake_finished", RS, ["decrypt"], locals={"_plaintext": "Option Bytes"})
+sess_spec("handle_tls_handshake_record", RS, [], calls=["handle_handshake_finished", "handle_tls_client_hello", "handle_tls_server_hello"])
+sess_spec("handle_decrypted_tls_13_handshake_record", [("plaintext", "Bytes"), ("isserver", "Bool")], ["update_keys"],
+          fuel={"while len(buffer)": "len(buffer)"})
+sess_spec("handle_tls_13_application_record", RS, ["decrypt"], calls=["handle_decrypted_tls_13_handshake_record", "handle_alert"])
+sess_spec("handle_tls_application_record", RS, ["decrypt"])
+sess_spec("handle_tls_record", RS, [], calls=["handle_tls_handshake_record", "handle_tls_13_application_record",
+                                              "handle_tls_application_record", "handle_alert"])
+
 THEOREMS = _uniq(theorem_of(s) for s in SPECS)
 
 
@@ -651,7 +736,161 @@ def _bool(x):
 
 def _exc(e):
     return {IndexError: "index", ZeroDivisionError: "zeroDiv", ValueError: "value", OverflowError: "overflow",
-            KeyError: "key"}.get(type(e))
+            KeyError: "key", AttributeError: "attr", UnboundLocalError: "unbound", TypeError: "type"}.get(type(e))
+
+
+# ---- session.py record handlers (group TlsSess2): the real methods on a `Session` made without `__init__`, a toy
+# decryptor whose state is a counter and a toy `generate_keys` — the same functions on the Lean side
+TOY_DECRYPT = ("(fun (d : Nat) (r : TLX.Session.Rec) (srv : Bool) => let n := d + 1; let h := (n + r.raw.length + (if srv then 1 else 0)) % 5; "
+               "if h = 0 then PyRt.Res.raised PyRt.Err.value n else if h = 1 then PyRt.Res.ok none n else PyRt.Res.ok (some r.body) n)")
+TOY_UPDATE = "(fun (d : Nat) (_srv : Bool) => let n := d + 10; if n % 3 = 0 then PyRt.Res.raised PyRt.Err.value n else PyRt.Res.ok () n)"
+TOY_GENKEYS = ("(fun (_v : Option TLX.Session.Ver) (suite cr _sr : TLX.Bytes) (exts : Option (List (TLX.Bytes × TLX.Bytes))) (comp : Option Nat) (cd : Bool) (dec : Option Nat) => "
+               "let k := (suite.length + (suite.headD 0).toNat + (exts.getD []).length + comp.getD 0) % 4; "
+               "if k = 0 then PyRt.Res.ok () (false, dec) else if k = 1 then PyRt.Res.raised PyRt.Err.value (cd, dec) "
+               "else if k = 2 then PyRt.Res.ok () (cd, some (100 + cr.length)) else PyRt.Res.raised PyRt.Err.key (false, dec))")
+TOY_EXT = {"decrypt": TOY_DECRYPT, "update_keys": TOY_UPDATE, "generate_keys": TOY_GENKEYS}
+
+
+class _ToyDec:
+    def __init__(self, n):
+        self.n = n
+
+    def decrypt(self, record, isserver):
+        self.n += 1
+        h = (self.n + len(record.raw) + (1 if isserver else 0)) % 5
+        if h == 0:
+            raise ValueError("toy")
+        return None if h == 1 else bytes(record.binary)
+
+    def update_keys(self, isserver):
+        self.n += 10
+        if self.n % 3 == 0:
+            raise ValueError("toy")
+
+
+def _toy_generate_keys(self, ver, suite, cr, sr):
+    k = (len(suite) + (suite[0] if len(suite) else 0) + len(self.extensions) + self.compression_method) % 4
+    if k == 0:
+        self.can_decrypt = False
+    elif k == 1:
+        raise ValueError("toy")
+    elif k == 2:
+        self.decryptor = _ToyDec(100 + len(cr))
+    else:
+        self.can_decrypt = False
+        raise KeyError("toy")
+
+
+def _sess_case(rng, ses, vers, call):
+    """one call of one of the record handlers on a random session state → (lean name, arguments, expected)"""
+    import types
+    from tlexport.tlsrecord import TlsRecord
+    MISSING = object()
+
+    def rb(lo, hi):
+        return bytes(rng.randrange(256) for _ in range(rng.randint(lo, hi)))
+
+    def hs_msgs():
+        out = b""
+        for _ in range(rng.randint(0, 3)):
+            body = rb(0, 5)
+            out += bytes([rng.choice([20, 20, 4, 8])]) + len(body).to_bytes(3, "big") + body
+        return out[:rng.randint(0, len(out))] if rng.random() < 0.3 else out
+
+    def server_hello():
+        exts = b""
+        for _ in range(rng.randint(0, 3)):
+            t = rng.choice([b"\x00\x2b", b"\x00\x2b", b"\x00\x17", b"\xff\x01"])
+            v = rng.choice([b"\x03\x04", b"\x03\x03", b"", rb(0, 3)])
+            exts += t + len(v).to_bytes(2, "big") + v
+        sid = rb(0, 4)
+        b = (b"\x02" + rb(3, 3) + rng.choice([b"\x03\x03", b"\x03\x01", b"\x03\x02", b"\x03\x00", b"\x02\x00"]) + rb(32, 32)
+             + bytes([len(sid)]) + sid + rng.choice([b"\x13\x01", b"\x00\x2f", b"\xc0\x30", rb(2, 2)]) + bytes([rng.choice([0, 0, 1])])
+             + (len(exts) + rng.choice([0, 0, 0, 2, -1]) * (1 if exts else 0)).to_bytes(2, "big") + exts)
+        return b[:rng.randint(0, len(b))] if rng.random() < 0.25 else b
+    func = rng.choice(["handle_alert", "handle_tls_client_hello", "handle_tls_server_hello", "handle_tls_server_hello",
+                       "handle_handshake_finished", "handle_tls_handshake_record", "handle_tls_handshake_record",
+                       "handle_decrypted_tls_13_handshake_record", "handle_tls_13_application_record", "handle_tls_13_application_record",
+                       "handle_tls_application_record", "handle_tls_record", "handle_tls_record", "handle_tls_record"])
+    srv = rng.random() < 0.5
+    typ = rng.choice([0x16, 0x16, 0x17, 0x17, 0x15, 0x14, 0x18])
+    if func in ("handle_tls_handshake_record", "handle_tls_server_hello", "handle_tls_client_hello", "handle_handshake_finished"):
+        typ = 0x16
+    if func in ("handle_tls_13_application_record", "handle_tls_application_record"):
+        typ = 0x17
+    if typ == 0x16:
+        body = rng.choice([server_hello(), server_hello(), b"\x01" + rb(0, 45), b"\x0b" + rb(0, 6), b""])
+        if func == "handle_tls_server_hello":
+            body = server_hello()
+    elif typ == 0x17:
+        inner = rng.choice([hs_msgs() + b"\x16", rb(0, 6) + b"\x17", rb(0, 3) + b"\x15", b"", rb(0, 4)])
+        body = inner + bytes(rng.choice([0, 0, 2]))
+    else:
+        body = rb(0, 3)
+    raw = bytes([typ]) + rng.choice([b"\x03\x03", b"\x03\x01", b"\x03\x00", b"\x03\x02"]) + len(body).to_bytes(2, "big") + body
+    record = TlsRecord(bytearray(raw), [], srv)
+    other = TlsRecord(bytearray(b"\x17\x03\x03\x00\x01\x09"), [], False)
+    me = object.__new__(ses.Session)
+    me.can_decrypt = rng.random() < 0.7
+    me.client_hello_seen = rng.random() < 0.7
+    me.tls_version = rng.choice([None] + list(vers) + [ses.TlsVersion.TLS13] * 3)
+    me.server_cipher_change, me.client_cipher_change = rng.random() < 0.4, rng.random() < 0.4
+    me.decryptor = _ToyDec(rng.randrange(10)) if rng.random() < 0.8 else None
+    if rng.random() < 0.8:
+        me.client_random = bytearray(rb(32, 32))
+    if rng.random() < 0.3:
+        me.server_random, me.ciphersuite, me.compression_method, me.extensions = bytearray(rb(32, 32)), bytearray(rb(2, 2)), 0, {b"\x00\x17": bytearray()}
+    me.application_traffic = [(b"old", other, False)] if rng.random() < 0.5 else []
+    me.handshake_13_buffer = {k: v for k, v in ((False, rng.choice([b"", b"\x14\x00", b"\x08\x00\x00"])), (True, rng.choice([b"", b"\x14\x00\x00"])))
+                              if rng.random() < 0.6}
+    me.exp_meta = rng.random() < 0.5
+    me.server_ip = me.client_ip = b"\x0a\x00\x00\x01"
+    me.server_port = me.client_port = 1
+    me.ipv6 = False
+    me.generate_keys = types.MethodType(_toy_generate_keys, me)
+    recs = {id(record): raw, id(other): bytes(other.raw)}
+
+    def rec(r):
+        return f"(⟨{_b(recs[id(r)])}, []⟩ : TLX.Session.Rec)"
+
+    def ob(x):
+        return "none" if x is None or x is MISSING else f"(some {_b(x)})"
+
+    def state():
+        g = lambda a: getattr(me, a, MISSING)
+        ver = "none" if me.tls_version is None else f"(some {vers[me.tls_version]})"
+        ex = g("extensions")
+        exl = "none" if ex is MISSING else "(some [" + ", ".join(f"({_b(k)}, {_b(v)})" for k, v in ex.items()) + "])"
+        cm = g("compression_method")
+        tr = "[" + ", ".join(f"({ob(d)}, {rec(r)}, {_bool(s_)})" for d, r, s_ in me.application_traffic) + "]"
+        hb = me.handshake_13_buffer
+        return (f"{{ can_decrypt := {_bool(me.can_decrypt)}, client_hello_seen := {_bool(me.client_hello_seen)}, tls_version := {ver}, "
+                f"server_cipher_change := {_bool(me.server_cipher_change)}, client_cipher_change := {_bool(me.client_cipher_change)}, "
+                f"decryptor := {'none' if me.decryptor is None else '(some ' + str(me.decryptor.n) + ')'}, client_random := {ob(g('client_random'))}, "
+                f"server_random := {ob(g('server_random'))}, ciphersuite := {ob(g('ciphersuite'))}, "
+                f"compression_method := {'none' if cm is MISSING else '(some ' + str(cm) + ')'}, extensions := {exl}, "
+                f"application_traffic := {tr}, handshake_13_buffer := ({_b(hb.get(False, b''))}, {_b(hb.get(True, b''))}) }}")
+    before = state()
+    if func == "handle_alert":
+        lvl = rng.choice([0, 1, 2, 1, 255])
+        pyargs, largs = (lvl,), str(lvl)
+    elif func in ("handle_tls_client_hello", "handle_tls_server_hello"):
+        pyargs, largs = (record,), rec(record)
+    elif func == "handle_decrypted_tls_13_handshake_record":
+        pt = hs_msgs()
+        pyargs, largs = (pt, srv), f"{_b(pt)} {_bool(srv)}"
+    else:
+        pyargs, largs = (record, srv), f"{rec(record)} {_bool(srv)}"
+    import logging
+    logging.disable(logging.CRITICAL)
+    try:
+        k, v = call(getattr(ses.Session, func), me, *pyargs)
+    finally:
+        logging.disable(logging.NOTSET)
+    exts = " ".join(TOY_EXT[e] for e in SESS_NEEDS[func])
+    head = f"(δ := Nat) {exts}".rstrip()
+    return ("Sess." + func, f"{head} {largs} {_bool(me.exp_meta)} {before}",
+            (f".ok () {state()}" if k == "ok" else f".raised .{v} {state()}"))
 
 
 def _frame(f):
@@ -925,6 +1164,8 @@ def _cases(rng, n):
                     f"client_cipher_change := {_bool(me.client_cipher_change)}, "
                     f"handshake_13_buffer := ({_b(hb.get(False, b''))}, {_b(hb.get(True, b''))}), "
                     f"client_random := some {_b(me.client_random)}, client_hello_seen := {_bool(me.client_hello_seen)} }}"))
+        for _ in range(4):
+            out.append(_sess_case(rng, ses, vers, call))
         # output builders
         pm = rng.choice([{}, {443: 8443}, {443: 8443, 5000: 1}])
         sp, keep = rng.choice([443, 5000, 80]), rng.random() < 0.5
@@ -962,7 +1203,7 @@ OUTSIDE = [
     ("def f(x):\n    try:\n        return x[0]\n    except KeyError:\n        return 1\n    finally:\n        pass\n", [("x", "Bytes")], "Int"),
     ("def f(d, k):\n    return d[k] in \"ab\"\n", [("d", "Table Str; Nat"), ("k", "Str")], "Bool"),
     ("def f(x):\n    y = bytearray(x)\n    z = y\n    z.extend(x)\n    return y\n", [("x", "Bytes")], "Bytes"),
-    ("def f(x):\n    return x == b'a'\n", [("x", "Int")], "Bool"),
+    ("def f(x):\n    return x == 'a'\n", [("x", "Int")], "Bool"),
     ("def f(x):\n    if x > 0:\n        return 1\n", [("x", "Int")], "Int"),
     ("def f(x):\n    try:\n        return 1\n    except BaseException:\n        return 2\n", [("x", "Int")], "Int"),
     ("def f(x):\n    return int.from_bytes(x, 'little')\n", [("x", "Bytes")], "Nat"),
